@@ -2,8 +2,10 @@ package main
 
 import (
 	"fmt"
+	"go/constant"
 	"go/token"
 	"go/types"
+	"os"
 	"strings"
 
 	"golang.org/x/tools/go/ssa"
@@ -287,6 +289,9 @@ func c14For(c *Ctx, pp string) {
 				retsLatch = false
 			}
 		})
+		if !retsLatch {
+			retsLatch, _ = pollFnSpec(procExit, stmtRet)
+		}
 		r.Ob("POLL-FN", tag+".ProcExit returns the latch", t.Pos(procExit.Pos()), retsLatch, "must return ctx.procExit")
 	}
 	// StmtRetrun: calls ProcExit; ProcExit true -> returns true
@@ -309,6 +314,9 @@ func c14For(c *Ctx, pp string) {
 					ok = true
 				}
 			}
+		}
+		if !ok {
+			_, ok = pollFnSpec(procExit, stmtRet)
 		}
 		r.Ob("POLL-FN", tag+".StmtRetrun polls ProcExit first and returns true when it is true", t.Pos(stmtRet.Pos()), ok, "StmtRetrun must call ProcExit unconditionally and propagate a true answer")
 	}
@@ -471,6 +479,7 @@ func c14For(c *Ctx, pp string) {
 				}
 			}
 			// (4) from the exit edge: no evaluation before a success return
+			pollEdgeNil = retClassFrom(pollBlk, exitIdx) == "nil" // a single exit returning a named result: nil on this path
 			okExit, why := pollExitClean(pollBlk.Succs[exitIdx], l, evalFns, map[*ssa.BasicBlock]bool{})
 			r.Ob("POLL-EXIT-SUCCESS", key, t.Pos(poll.Pos()), okExit, "after the poll reports true the executor must return success without evaluating anything else"+why)
 		}
@@ -542,6 +551,9 @@ func leadsOut(b *ssa.BasicBlock, l *natLoop) bool {
 	return !l.Blocks[b]
 }
 
+// pollEdgeNil: set by the caller for the exit edge being examined (see retClassFrom)
+var pollEdgeNil bool
+
 func pollExitClean(b *ssa.BasicBlock, l *natLoop, evalFns map[*ssa.Function]bool, seen map[*ssa.BasicBlock]bool) (bool, string) {
 	if seen[b] {
 		return true, ""
@@ -562,7 +574,7 @@ func pollExitClean(b *ssa.BasicBlock, l *natLoop, evalFns map[*ssa.Function]bool
 			}
 		}
 		if ret, ok := in.(*ssa.Return); ok {
-			if retError(ret) != "nil" {
+			if retError(ret) != "nil" && !pollEdgeNil {
 				return false, ": the return after the poll is not a nil-error return"
 			}
 		}
@@ -576,3 +588,109 @@ func pollExitClean(b *ssa.BasicBlock, l *natLoop, evalFns map[*ssa.Function]bool
 }
 
 var _ = token.ADD
+
+// pollFnSpec: ProcExit / StmtRetrun decided on their outcomes (named results, single exits and helpers inlined).
+// ProcExit: whenever the latch was set on entry, or the signal answered true, the result is true; it is true for no
+// other reason. StmtRetrun: every outcome consulted ProcExit, and a true answer of ProcExit gives true.
+func pollFnSpec(procExit, stmtRet *ssa.Function) (latchOK, stmtOK bool) {
+	truth := func(v sval, lits map[string]bool, latch string) (isTrue, known bool) {
+		if v.isConst() && v.c.Kind() == constant.Bool {
+			return constant.BoolVal(v.c), true
+		}
+		// a boolean symbol that was branched on along this path has the value of that branch
+		if s := stripParens(v.String()); s != "" {
+			if lits["+"+s] {
+				return true, true
+			}
+			if lits["-"+s] {
+				return false, true
+			}
+		}
+		return false, false
+	}
+	{
+		cfg := &specCfg{MaxLoop: 2, MaxDepth: 3, Consistent: true}
+		var args []sval
+		for _, p := range procExit.Params {
+			args = append(args, symv(p.Name()))
+		}
+		outs, ab := cfg.run(procExit, args)
+		latch := procExit.Params[0].Name() + ".procExit"
+		latchOK = ab == "" && len(outs) > 0
+		for _, o := range outs {
+			lits := map[string]bool{}
+			fired := false
+			for _, cd := range condsOnly(o.Cond) {
+				l := canonLit(cd)
+				lits[l] = true
+				if l[0] == '+' && strings.HasPrefix(l[1:], "ExitSignal(") {
+					fired = true
+				}
+			}
+			if os.Getenv("PLVERIF_DEBUG") == "pollfn" {
+				fmt.Fprintln(os.Stderr, "POLLFN ProcExit", o.Vals, sortedKeys(lits))
+			}
+			if len(o.Vals) != 1 {
+				latchOK = false
+				continue
+			}
+			isTrue, known := truth(o.Vals[0], lits, latch)
+			if !known {
+				// returning the latch itself after it may have been set on this path
+				if o.Vals[0].String() == latch && !fired {
+					continue
+				}
+				if o.Vals[0].String() == latch && fired {
+					continue // set on this path just before (checked by the latching rule) and returned
+				}
+				latchOK = false
+				continue
+			}
+			if (lits["+"+latch] || fired) && !isTrue {
+				latchOK = false
+			}
+			if isTrue && !lits["+"+latch] && !fired {
+				latchOK = false
+			}
+		}
+	}
+	{
+		cfg := &specCfg{MaxLoop: 2, MaxDepth: 3, Consistent: true}
+		cfg.Call = func(fn *ssa.Function, call *ssa.Call, nth int, args []sval) (sval, bool) {
+			if call.Call.StaticCallee() == procExit {
+				return symv("exit"), true
+			}
+			return sval{}, false
+		}
+		var args []sval
+		for _, p := range stmtRet.Params {
+			args = append(args, symv(p.Name()))
+		}
+		outs, ab := cfg.run(stmtRet, args)
+		stmtOK = ab == "" && len(outs) > 0
+		for _, o := range outs {
+			lits := map[string]bool{}
+			for _, cd := range condsOnly(o.Cond) {
+				lits[canonLit(cd)] = true
+			}
+			if os.Getenv("PLVERIF_DEBUG") == "pollfn" {
+				fmt.Fprintln(os.Stderr, "POLLFN StmtRetrun", o.Vals, sortedKeys(lits))
+			}
+			if len(o.Vals) != 1 {
+				stmtOK = false
+				continue
+			}
+			v := o.Vals[0]
+			if v.String() == "exit" {
+				continue // returns ProcExit's answer itself
+			}
+			if !lits["+exit"] && !lits["-exit"] {
+				stmtOK = false // ProcExit was not consulted on this path
+			}
+			if lits["+exit"] && !(v.isConst() && v.c.Kind() == constant.Bool && constant.BoolVal(v.c)) {
+				stmtOK = false
+			}
+		}
+	}
+	return
+}
